@@ -104,7 +104,8 @@ def plan(rng, tier):
         r = rng.random()
         if hk and is_tree(kind) and r < 0.03 and len(g.model.d) > 6:
             out.append(["commit"])
-            out.append(["@goleft", rng.randrange(1 << 16),
+            out.append([rng.choice(["@goleft", "@goleft", "@delsep"]),
+                        rng.randrange(1 << 16),
                         rng.choice(["interior", "deactivate"])])
             continue
         if hk and p_cmp and is_tree(kind) and g.model.d and r < 0.10:
@@ -236,7 +237,23 @@ class _Side(object):
 def _node_class(obj, root):
     if obj is root:
         return "root"
-    return "interior" if hasattr(obj, "_firstbucket") else "leaf"
+    # (by TYPE: any attribute lookup on the node itself, `hasattr(obj, ..)`
+    # included, re-activates a ghost -- the sweep this function classifies
+    # for would be undone the moment it is counted; Session 4)
+    return "interior" if _is_tree_type(type(obj)) else "leaf"
+
+
+_TREE_NAMES = ("BTree", "TreeSet", "BTreePy", "TreeSetPy")
+_tree_types = {}
+
+
+def _is_tree_type(t):
+    r = _tree_types.get(t)
+    if r is None:
+        r = _tree_types[t] = any(
+            b.__module__.startswith("BTrees.") and b.__name__[2:] in
+            _TREE_NAMES for b in t.__mro__)
+    return r
 
 
 def _sweep(side, how, arg, ctx):
@@ -355,6 +372,32 @@ def execute(plan, ctx):
                                   ["range", "keys", "omit", ki, 0, 1, "kw"]])
                 ops_list[idx + 1:idx + 1] = extra
                 ctx.probe("goleft-expanded")
+                continue
+            if name == "@delsep":
+                # resolved against the actual shape: delete the first key(s)
+                # of the first leaf of a NON-leftmost interior node -- a key
+                # that is a separator two or more levels up, which every
+                # level refreshes on the way back up after one more
+                # comparison; everything off the path a ghost, the planned
+                # sweep at the last comparisons of the delete
+                if not is_tree(kind):
+                    continue
+                w_ = walker.walk(B.c, dom, mapping)
+                cands = [lf for lf in w_.leaves
+                         if id(lf) in w_.subtree_firsts]
+                if not cands:
+                    ctx.probe("delsep-not-applicable")
+                    continue
+                lf = cands[op0[1] % len(cands)]
+                kis = [dom.index_of(k) for k in lf.keys()]
+                w_ = lf = cands = None
+                extra = []
+                for j, ki in enumerate(kis[:-1][:3]):
+                    extra.append(["sweep", "minimize", 0])
+                    extra.append(["@cmp", -1 - j, op0[2],
+                                  ["del" if mapping else "remove", ki]])
+                ops_list[idx + 1:idx + 1] = extra
+                ctx.probe("delsep-expanded")
                 continue
             if name == "commit":
                 for s in (A, B):
@@ -501,7 +544,12 @@ def execute(plan, ctx):
                     info["n"] += n
                     info["classes"] |= classes
                     info["refused"] += refused
-                hook.arm(at, action)
+                # (a negative index: at EVERY comparison of the operation --
+                # the evicted side compares reloaded key objects, so its
+                # count differs from the twin's and "the last comparison"
+                # cannot be named in advance)
+                hook.arm(1 if fault[0] < 0 else at, action,
+                         every=fault[0] < 0)
             got = _do(A, op, dom, cfg, B)
             fired = hook.fired
             hook.disarm()
